@@ -266,6 +266,8 @@ def impl(line: str) -> str:
         return _impl_sp(t)
     if t[0].startswith("pedersen."):
         return _impl_pedersen(t)
+    if t[0].startswith("psbt."):
+        return _impl_psbt(t)
     return "bad-op"
 
 
@@ -2718,51 +2720,86 @@ def _o_psbt_musig2(w):  # noqa: PLR0911, PLR0912
     return True, f"{len(prvs)} signers, {w['mode']} key"
 
 
+def _sp_psbt_build(inputs, outpoints, outs):
+    """A BIP375 psbt (the vendored vector re-keyed): inputs [(kind, prv)], outpoints [(txid hex, vout)],
+    outs [(B_scan point, B_m point, label|None)] -> (psbt, the Signers' keys: the even-y key for a taproot input)"""
+    tmpl = Psbt.b64decode(_psbt_template("bip375"))
+    tin, tout = tmpl.inputs[0], next(o for o in tmpl.outputs if o.sp_v0_info)
+    origin = next(iter(tin.hd_key_paths.values()))
+    psbt = copy.deepcopy(tmpl)
+    psbt.inputs, psbt.outputs = [], []
+    signer_keys = []
+    for j, (kind, prv) in enumerate(inputs):
+        pin = copy.deepcopy(tin)
+        pin.partial_sigs, pin.sp_ecdh_shares, pin.sp_dleq_proofs, pin.hd_key_paths = {}, {}, {}, {}
+        pin.sig_hash_type = None
+        pt = mult(prv)
+        c = bytes_from_point(pt, secp256k1)
+        if kind == "p2tr":
+            spk = b"\x51\x20" + c[1:]
+            signer_keys.append(prv if pt[1] % 2 == 0 else N - prv)  # the key of the (even-y) output key
+        elif kind == "p2sh-p2wpkh":
+            pin.redeem_script = b"\x00\x14" + hash160(c)
+            spk = b"\xa9\x14" + hash160(pin.redeem_script) + b"\x87"
+            pin.hd_key_paths = {c: origin}
+            signer_keys.append(prv)
+        else:
+            spk = b"\x00\x14" + hash160(c)
+            pin.hd_key_paths = {c: origin}
+            signer_keys.append(prv)
+        pin.witness_utxo = TxOut(100000, ScriptPubKey(spk))
+        pin.previous_tx_id = bytes.fromhex(outpoints[j][0])
+        pin.output_index = outpoints[j][1]
+        psbt.inputs.append(pin)
+    for bs, bm, m in outs:
+        pout = copy.deepcopy(tout)
+        pout.script_pub_key = b""
+        pout.sp_v0_info = bytes_from_point(bs, secp256k1) + bytes_from_point(bm, secp256k1)
+        pout.sp_v0_label = m
+        pout.amount = 1000
+        psbt.outputs.append(pout)
+    psbt.tx_modifiable = 0b11
+    psbt.assert_valid()
+    return _travel(psbt), signer_keys
+
+
+def _sp_psbt_sign(psbt, signer_keys, mode, aux):
+    """The Signer role(s). mode: `global` one share for all inputs; `input` one Signer per input, combined;
+    `both` per-input shares AND a global one; `split` (two scan keys or more) the first scan key keeps only its
+    per-input shares, every other one only its global share."""
+    if mode == "global":
+        psbt_sp.set_global_share(psbt, signer_keys, aux)
+        return psbt
+    copies = []
+    for j in range(len(signer_keys)):
+        c = copy.deepcopy(psbt)
+        psbt_sp.set_input_share(c, j, signer_keys[j], aux)
+        copies.append(_travel(c))
+    psbt = psbt_combine(copies) if len(copies) > 1 else copies[0]
+    if mode in ("both", "split"):
+        psbt_sp.set_global_share(psbt, signer_keys, aux)
+    if mode == "split":
+        sks = sorted(psbt.sp_ecdh_shares)
+        if len(sks) > 1:
+            del psbt.sp_ecdh_shares[sks[0]], psbt.sp_dleq_proofs[sks[0]]
+            for pin in psbt.inputs:
+                for sk in sks[1:]:
+                    pin.sp_ecdh_shares.pop(sk, None)
+                    pin.sp_dleq_proofs.pop(sk, None)
+    return psbt
+
+
 def _o_psbt_sp(w):  # noqa: PLR0911, PLR0912, PLR0915
+    mode = w.get("mode") or ("global" if w["global"] else "input")
     with backend(w["serving"]):
         try:
-            tmpl = Psbt.b64decode(_psbt_template("bip375"))
-            tin, tout = tmpl.inputs[0], next(o for o in tmpl.outputs if o.sp_v0_info)
-            origin = next(iter(tin.hd_key_paths.values()))
-            psbt = copy.deepcopy(tmpl)
-            psbt.inputs, psbt.outputs = [], []
-            signer_keys = []
-            for j, (kind, prv) in enumerate(w["inputs"]):
-                pin = copy.deepcopy(tin)
-                pin.partial_sigs, pin.sp_ecdh_shares, pin.sp_dleq_proofs, pin.hd_key_paths = {}, {}, {}, {}
-                pin.sig_hash_type = None
-                pt = mult(prv)
-                c = bytes_from_point(pt, secp256k1)
-                if kind == "p2tr":
-                    spk = b"\x51\x20" + c[1:]
-                    signer_keys.append(prv if pt[1] % 2 == 0 else N - prv)  # the key of the (even-y) output key
-                elif kind == "p2sh-p2wpkh":
-                    pin.redeem_script = b"\x00\x14" + hash160(c)
-                    spk = b"\xa9\x14" + hash160(pin.redeem_script) + b"\x87"
-                    pin.hd_key_paths = {c: origin}
-                    signer_keys.append(prv)
-                else:
-                    spk = b"\x00\x14" + hash160(c)
-                    pin.hd_key_paths = {c: origin}
-                    signer_keys.append(prv)
-                pin.witness_utxo = TxOut(100000, ScriptPubKey(spk))
-                pin.previous_tx_id = bytes.fromhex(w["outpoints"][j][0])
-                pin.output_index = w["outpoints"][j][1]
-                psbt.inputs.append(pin)
-            b_ms = []
+            b_ms, outs = [], []
             for wi, m in w["recipients"]:
                 b_scan, b_spend, _labels = w["wallets"][wi]
-                pout = copy.deepcopy(tout)
                 bm = mult(b_spend) if m is None else secp256k1.add_var(mult(b_spend), mult(sp.label_tweak(b_scan, m)))
-                pout.script_pub_key = b""
-                pout.sp_v0_info = bytes_from_point(mult(b_scan), secp256k1) + bytes_from_point(bm, secp256k1)
-                pout.sp_v0_label = m
-                pout.amount = 1000
                 b_ms.append(bm)
-                psbt.outputs.append(pout)
-            psbt.tx_modifiable = 0b11
-            psbt.assert_valid()
-            psbt = _travel(psbt)
+                outs.append((mult(b_scan), bm, m))
+            psbt, signer_keys = _sp_psbt_build(w["inputs"], w["outpoints"], outs)
             eligible = psbt_sp.eligible_pub_keys(psbt)
             if sorted(eligible) != list(range(len(w["inputs"]))):
                 return False, f"eligible inputs {sorted(eligible)} of {len(w['inputs'])}"
@@ -2773,16 +2810,7 @@ def _o_psbt_sp(w):  # noqa: PLR0911, PLR0912, PLR0915
                     if not ok:
                         return False, f"set_input_share with the odd-y private key of a taproot input: {cls}"
             # -- Signer(s)
-            aux = bytes.fromhex(w["aux"])
-            if w["global"]:
-                psbt_sp.set_global_share(psbt, signer_keys, aux)
-            else:
-                copies = []
-                for j in range(len(w["inputs"])):
-                    c = copy.deepcopy(psbt)
-                    psbt_sp.set_input_share(c, j, signer_keys[j], aux)
-                    copies.append(_travel(c))
-                psbt = psbt_combine(copies) if len(copies) > 1 else copies[0]
+            psbt = _sp_psbt_sign(psbt, signer_keys, mode, bytes.fromhex(w["aux"]))
             psbt_sp.assert_shares_as_valid(psbt)
             psbt_sp.set_output_scripts(psbt)
             psbt = _travel(psbt)
@@ -2801,7 +2829,8 @@ def _o_psbt_sp(w):  # noqa: PLR0911, PLR0912, PLR0915
                        [(prv, b"\x00\x14" + bytes(20)) for (k, prv) in w["inputs"] if k == "p2sh-p2wpkh"]
             outpoints = [pin.prev_out for pin in psbt.inputs]
             addresses = [sp.address_from_keys(mult(w["wallets"][wi][0]), b_ms[i]) for i, (wi, _m) in enumerate(w["recipients"])]
-            if {s[2:] for s in scripts} != set(sp.output_keys(prv_keys, outpoints, addresses)):
+            # (BIP375 counts k per scan key in output order, output_keys in address order: the same order here)
+            if [s[2:] for s in scripts] != sp.output_keys(prv_keys, outpoints, addresses):
                 return False, "the BIP375 roles and silent_payments.output_keys derive different outputs"
             # -- every recipient's scanner finds its outputs and can spend them
             outputs = [s[2:] for s in scripts]
@@ -2822,7 +2851,7 @@ def _o_psbt_sp(w):  # noqa: PLR0911, PLR0912, PLR0915
                 return False, "an output of the psbt is paid to no wallet"
             # -- a share altered after the fact is refused by the Extractor
             bad = copy.deepcopy(psbt)
-            holder = bad if w["global"] else bad.inputs[w["alt"] % len(bad.inputs)]
+            holder = bad if bad.sp_ecdh_shares else bad.inputs[w["alt"] % len(bad.inputs)]
             sk = sorted(holder.sp_ecdh_shares)[0]
             other = bytes_from_point(mult(w["stranger"]), secp256k1)
             holder.sp_ecdh_shares[sk] = other
@@ -2831,10 +2860,56 @@ def _o_psbt_sp(w):  # noqa: PLR0911, PLR0912, PLR0915
                 return False, f"assert_as_valid on a psbt with a replaced ECDH share: {cls}"
         except Exception as e:  # noqa: BLE001
             return False, f"BIP375 roles raised {type(e).__name__}: {str(e)[:140]}"
-    return True, f"{len(w['inputs'])} inputs, {len(w['recipients'])} sp outputs, {'global' if w['global'] else 'per-input'} shares"
+    return True, f"{len(w['inputs'])} inputs, {len(w['recipients'])} sp outputs, {mode} shares"
 
 
 ORACLES.update({"psbt.musig2_roles": _o_psbt_musig2, "psbt.sp_roles": _o_psbt_sp})
+
+
+# ---- psbt: correspondence for the share summation -------------------------------------------------------
+# psbt.sp_output_keys <global|input> <inputs `prv:0|1` (1 = p2tr)> <outpoints hex36> <recips `Bsx:Bsy:Bmx:Bmy`>
+#   -> ok <list of hex32 in output order>: the real BIP375 roles on a psbt built from the line (Signer(s) with a
+#   global share or one share per input, then set_output_scripts) against Model/C16/SilentPayments.lean psbtOutputKeys
+#   (per-input shares are SUMMED AS A LIST: equal shares of inputs locked to one key all count).
+def _impl_psbt(t) -> str:
+    if t[0] != "psbt.sp_output_keys" or len(t) != 5:
+        return "bad-op"
+    try:
+        mode = t[1]
+        inputs = [] if t[2] == "-" else [("p2tr" if x.split(":")[1] == "1" else "p2wpkh", int(x.split(":")[0]))
+                                         for x in t[2].split(",")]
+        ops = [(o.tx_id.hex(), o.vout) for o in _p_outpoints(t[3])]
+        recips = _p_points(t[4], 4)
+    except (ValueError, IndexError):
+        return "bad-op"
+
+    def f():
+        psbt, signer_keys = _sp_psbt_build(inputs, ops, [(bs, bm, None) for bs, bm in recips])
+        psbt = _sp_psbt_sign(psbt, signer_keys, mode, bytes(32))
+        psbt_sp.set_output_scripts(psbt)
+        return t_list(o.script_pub_key[2:] for o in psbt.outputs)
+    return _call(f)
+
+
+def _psbt_sp_line(w, mode) -> str:
+    recips = []
+    for wi, m in w["recipients"]:
+        b_scan, b_spend, _labels = w["wallets"][wi]
+        bm = mult(b_spend) if m is None else secp256k1.add_var(mult(b_spend), mult(sp.label_tweak(b_scan, m)))
+        recips.append((mult(b_scan), bm))
+    ops = [OutPoint(bytes.fromhex(t), v).serialize() for t, v in w["outpoints"][:len(w["inputs"])]]
+    return f"psbt.sp_output_keys {mode} {_t_spkeys(w['inputs'])} {t_list(ops)} {_t_points(recips)}"
+
+
+# (input kinds all locked to ONE key, how the shares travel, recipients (wallet, label))
+_SP_PSBT_FORCED = [
+    (["p2wpkh", "p2wpkh"], "input", [[0, None]]),
+    (["p2wpkh", "p2wpkh"], "global", [[0, None], [0, None]]),
+    (["p2wpkh", "p2sh-p2wpkh", "p2wpkh"], "input", [[0, None], [1, None], [0, 3]]),
+    (["p2tr", "p2tr"], "input", [[0, 0], [0, None], [0, None]]),
+    (["p2tr", "p2tr", "p2tr"], "both", [[1, None], [0, None]]),
+    (["p2wpkh", "p2wpkh", "p2wpkh"], "split", [[0, None], [1, None], [0, None], [1, None]]),
+]
 
 
 # ---- psbt: generators/run ------------------------------------------------------------------------------
@@ -2853,12 +2928,36 @@ def run_psbt(ctx):
                       {"prvs": prvs, "mode": ("output", "internal")[(i // 2) % 2] if i < 4 else rng.choice(["output", "internal"]),
                        "merkle": rng.choice(["", common.rand_bytes(rng, 32).hex()]), "sort": rng.random() < 0.5,
                        "combine": rng.random() < 0.5, "alt": rng.randrange(4), "bit": rng.randrange(256), "serving": serving})
-        for i in range(n):
+        sp_lines = []
+        for i in range(n + len(_SP_PSBT_FORCED)):
             w = _w_sp(rng, serving, small=True)
             w["inputs"] = [[{"p2pkh": "p2wpkh", "p2tr-annex": "p2tr"}.get(k, k), d] for k, d in w["inputs"]]
+            mode = ("input", "global", "both", "split")[i % 4]
+            if i < len(_SP_PSBT_FORCED):
+                # repeated input keys (two / three inputs locked to ONE key: equal per-input shares that must all
+                # count), repeated scan keys (k advances), every way of carrying the shares
+                kinds, mode, recs = _SP_PSBT_FORCED[i]
+                d = g_prv(rng)
+                w["inputs"] = [[k, d] for k in kinds]
+                if len(w["wallets"]) < 2:
+                    w["wallets"].append([g_prv(rng), g_prv(rng), []])
+                w["wallets"][0][2] = [0, 3]
+                w["recipients"] = [list(r) for r in recs]
+            elif rng.random() < 0.35 and len(w["inputs"]) >= 2:
+                # a repeated key somewhere among the inputs (same kind: a taproot twin could cancel a plain one)
+                j, k = rng.sample(range(len(w["inputs"])), 2)
+                w["inputs"][k] = list(w["inputs"][j])
+            while len(w["outpoints"]) < len(w["inputs"]):
+                w["outpoints"].append([common.rand_bytes(rng, 32).hex(), rng.randrange(4)])
             w["outpoints"] = w["outpoints"][:len(w["inputs"])]
-            w.update({"global": bool(i % 2), "aux": common.rand_bytes(rng, 32).hex(), "alt": rng.randrange(4)})
+            w.update({"global": mode == "global", "mode": mode, "aux": common.rand_bytes(rng, 32).hex(),
+                      "alt": rng.randrange(4)})
+            ctx.count("psbt.sp.mode", mode)
+            ctx.count("psbt.sp.repeated_input_key", str(len(w["inputs"]) - len({d for _k, d in w["inputs"]})))
             ctx.check("psbt.sp_roles", w)
+            sp_lines.append(_psbt_sp_line(w, "global" if mode in ("global", "both") else "input"))
+        with backend(serving):
+            ctx.correspond(f"psbt.sp_output_keys@{tag}", EXE, [(ln, impl(ln)) for ln in sp_lines])
 
 
 # ---- pedersen: impl / generators/run --------------------------------------------------------------------
